@@ -28,7 +28,7 @@ RULE = {'C19': 'sequences of constructors (Stream, plain nodes, loop-requiring n
                'distinct = distinct constructor/argument sequences'}
 
 PLAIN = ['map', 'sliding_window', 'unique', 'union1', 'sink']          # do not need a loop
-LOOPY = ['buffer', 'delay', 'rate_limit', 'timed_window', 'latest', 'partition']   # ensure_io_loop
+LOOPY = ['buffer', 'delay', 'rate_limit', 'timed_window', 'latest', 'partition', 'map_async']   # ensure_io_loop
 SOURCES = ['from_iterable', 'from_periodic', 'from_textfile', 'filenames', 'from_kafka_batched']
 SOURCE_CLASSES = SOURCES + ['FromKafkaBatched']
 ACCEPTS_KW = {'stream', 'sliding_window', 'unique', 'union1', 'sink', 'buffer', 'delay', 'rate_limit',
@@ -95,6 +95,11 @@ def run_binding(sc):
             return x
 
         S['user_fn'] = user_fn
+
+        async def user_coro(x):
+            return user_fn(x)
+
+        S['user_coro'] = user_coro
         for si, st in enumerate(sc['steps']):
             kind = st['kind']
             a = st.get('asynchronous')
@@ -178,6 +183,9 @@ def run_binding(sc):
                     node = up.latest(**kw)
                 elif kind == 'partition':
                     node = up.partition(2, **kw)
+                elif kind == 'map_async':
+                    # (its keyword arguments go to the mapped function: no loop= / asynchronous= of its own)
+                    node = up.map_async(S['user_coro'])
                 elif kind == 'from_iterable':
                     node = Stream.from_iterable([1, 2, 3], **kw)
                 elif kind == 'from_periodic':
@@ -290,6 +298,40 @@ def run_binding(sc):
         if V:
             return
         caller, other, chains, seen_cb_loops, user_fn = S['caller'], S['other'], S['chains'], S['seen'], S['user_fn']
+        # ---- start() from the user's thread on the blocking pipelines -----------
+        #      (p = ....sink(f); p.start(): the call travels upstream through every node).  Whatever a node sets
+        #      going then belongs on the pipeline's loop - the shared background loop - not on the loop that
+        #      happens to be current in the calling thread
+        seen_chains = []
+        for cid, ch in sorted(chains.items()):
+            if ch['loop'] != 'bg' or any(ch is c for c in seen_chains):
+                continue
+            seen_chains.append(ch)
+            before = (len(asyncio.all_tasks(lp)), len(lp._ready) + len(lp._scheduled),
+                      len(other.asyncio_loop._ready) + len(other.asyncio_loop._scheduled))
+            exc = None
+            has_child = set(id(u) for nd in ch['nodes'] for u in nd.upstreams if u is not None)
+            leaves = [nd for nd in ch['nodes'] if id(nd) not in has_child]
+            try:
+                for nd in leaves:
+                    nd.start()
+            except Exception as e:       # noqa
+                exc = e
+            after = (len(asyncio.all_tasks(lp)), len(lp._ready) + len(lp._scheduled),
+                     len(other.asyncio_loop._ready) + len(other.asyncio_loop._scheduled))
+            rec.rec('started_from_caller', cid, repr(exc)[:80] if exc else None, before == after)
+            info['started_bg'] = info.get('started_bg', 0) + 1
+            if exc is not None:
+                V.append(Violation('C19', 'C19.split', len(rec.events) - 1,
+                                   'blocking pipeline %s (shared background loop): start() called from the user\'s thread raised %r'
+                                   % (cid, exc), node_op=type(ch['nodes'][0]).__name__))
+                return
+            if before != after:
+                V.append(Violation('C19', 'C19.split', len(rec.events) - 1,
+                                   'blocking pipeline %s is bound to the shared background loop, but start() called from the user\'s '
+                                   'thread put work on the loop current in that thread (tasks/callbacks there: %r -> %r)'
+                                   % (cid, before, after), node_op=[type(nd).__name__ for nd in ch['nodes']][-1]))
+                return
         # ---- data flow on the asynchronous pipelines ------------------------
         for cid, ch in sorted(chains.items()):
             if ch['mode'] is not True or ch['loop'] != 'caller':
@@ -382,6 +424,8 @@ def evaluate(prop, sc, want_trace=False):
         out.probes['conflict_raised'] = 1
     if info['bg']:
         out.probes['background_loop_used'] = 1
+    if info.get('started_bg'):
+        out.probes['blocking_pipeline_started_from_the_callers_thread'] = 1
     if any(st['kind'] == 'join' for st in sc['steps']):
         out.probes['pipelines_joined'] = 1
     if sc.get('outside'):
